@@ -142,8 +142,8 @@ func genReq(r *hv.Rng, name string) *condh.Req {
 			q.Ctx = append(q.Ctx, condh.Ctx{K: pickS(r, []string{"k1", "k2", ""}), IsStr: r.Chance(3, 4), V: pickS(r, values)})
 		}
 	}
-	if strings.Contains(name, "time") {
-		// the time fetcher is only modelled with the debug header (otherwise time.Now())
+	if strings.Contains(name, "time") && !r.Chance(1, 4) {
+		// mock time via the debug header; without it the fetcher uses time.Now() (see hasDebugTime below)
 		zone, off := zoneOf(r)
 		v := fmtTime(baseUnix+int64(r.Range(-3, 4)), zone, off)
 		if r.Chance(1, 10) {
@@ -182,6 +182,9 @@ func derive(r *hv.Rng, s string) string {
 
 func patFrom(r *hv.Rng, subjects []string) string {
 	n := r.Range(1, 3)
+	if r.Chance(1, 4) { // longer lists: the sorted-search matchers need first / middle / last / beyond-last positions
+		n = r.Range(4, 6)
+	}
 	var parts []string
 	for i := 0; i < n; i++ {
 		parts = append(parts, derive(r, pickS(r, subjects)))
@@ -278,6 +281,15 @@ func hashSections(r *hv.Rng, b int) string {
 
 var regexPool = []string{".*", "^$", "^/api", "(?i)search", "[0-9]+", "(", "a{2,1}", "^Example\\.com$", "x|y", "[", "\\d{3}$", "(?i)^example"}
 
+func hasDebugTime(q *condh.Req) bool {
+	for _, h := range q.Headers {
+		if h.K == "X-Bfe-Debug-Time" {
+			return true
+		}
+	}
+	return false
+}
+
 func genArgs(r *hv.Rng, name string, kinds []int, q *condh.Req) []condh.Arg {
 	subjects := q.Subjects()
 	port := "80"
@@ -297,6 +309,7 @@ func genArgs(r *hv.Rng, name string, kinds []int, q *condh.Req) []condh.Arg {
 			subjects = []string{v, v, v, strings.ToLower(v), pickS(r, subjects)}
 		}
 	}
+	widx := r.Intn(1 << 20) // one coherent window per call for the real-clock time cases
 	var args []condh.Arg
 	nstr := 0
 	for _, k := range kinds {
@@ -402,6 +415,13 @@ func genArgs(r *hv.Rng, name string, kinds []int, q *condh.Req) []condh.Arg {
 				parts = append(parts, ipText(r, q.VIP, r.Intn(3)-1))
 			}
 			v = strings.Join(parts, "|")
+		case name == "bfe_time_range" && !hasDebugTime(q):
+			// real clock: only windows whose verdict cannot change between 2020 and 2090
+			w := [][2]string{{"20000101000000Z", "21000101000000Z"}, {"20000101000000Z", "20010101000000Z"}, {"21000101000000H", "21010101000000H"},
+				{"20000101000000A", "20190204203000Z"}, {"19700101000000Z", "99991231235959Z"}, {"21000101000000Z", "20000101000000Z"}}[widx%6]
+			v = w[si]
+		case name == "bfe_periodic_time_range" && !hasDebugTime(q):
+			v = [][3]string{{"000000Z", "235959Z", ""}, {"000000H", "235959H", ""}, {"000000Z", "235959Z", "x"}, {"235959Z", "000000Z", ""}}[widx%4][si]
 		case name == "bfe_time_range":
 			zone, off := zoneOf(r)
 			d := int64(r.Range(0, 3))
@@ -455,7 +475,40 @@ func genArgs(r *hv.Rng, name string, kinds []int, q *condh.Req) []condh.Arg {
 			}
 			v = strings.Join(parts, "|")
 		default:
-			v = patFrom(r, subjects)
+			// unkeyed string primitives: mostly derive the patterns from the attribute the primitive inspects
+			fv, ok := "", true
+			switch {
+			case name == "ses_tls_client_ca_in" && q.TLS != nil:
+				fv = q.TLS.CA
+			case name == "ses_tls_sni_in" && q.TLS != nil:
+				fv = q.TLS.Sni
+			case name == "req_proto_match":
+				fv = q.HProto
+				if q.Secure {
+					fv = q.SProto
+				}
+			case name == "req_host_tag_in":
+				fv = q.HostTag
+			case name == "req_method_in":
+				fv = q.Method
+			case name == "req_port_in":
+				fv = port
+			case name == "res_code_in":
+				fv = strconv.Itoa(q.Status)
+			case strings.HasPrefix(name, "req_host_"):
+				fv = strings.SplitN(q.Host, ":", 2)[0]
+			case strings.HasPrefix(name, "req_path_"):
+				fv = q.Path
+			default:
+				ok = false
+			}
+			if ok && name == "req_proto_match" && r.Chance(1, 2) {
+				v = flipCase(r, fv) // a single exact pattern
+			} else if ok && r.Chance(2, 3) {
+				v = patFrom(r, []string{fv, fv, fv, pickS(r, subjects)})
+			} else {
+				v = patFrom(r, subjects)
+			}
 			if name == "req_host_in" && r.Chance(5, 6) {
 				v = strings.Replace(v, ":", "", -1)
 			}
